@@ -120,29 +120,6 @@ Definition opt_min (st : state) : option tree :=
 Definition opt_max (st : state) : option tree :=
   match root st with None => None | Some t => maximum t end.
 
-(* native float comparisons on bit patterns, as Go's == and > *)
-Definition is_zero_f (w : nat) (b : N) : bool := (b =? 0) || (b =? signbit w).
-Definition ieee_eq (w : nat) (a b : N) : bool :=
-  negb (is_nan w a) && negb (is_nan w b) && ((a =? b) || (is_zero_f w a && is_zero_f w b)).
-Definition ieee_gt (w : nat) (a b : N) : bool :=
-  negb (is_nan w a) && negb (is_nan w b) && negb (is_zero_f w a && is_zero_f w b) && fl_ltb w b a.
-
-(* K == K and K > K for the ComparableKeys instantiations *)
-Definition key_eq (k : kind) (a b : akey) : bool :=
-  match k, a, b with
-  | KUnsigned _, AU x, AU y => x =? y
-  | KSigned _, AS x, AS y => (x =? y)%Z
-  | KFloat w, AF x, AF y => ieee_eq w x y
-  | _, _, _ => false
-  end.
-Definition key_gt (k : kind) (a b : akey) : bool :=
-  match k, a, b with
-  | KUnsigned _, AU x, AU y => y <? x
-  | KSigned _, AS x, AS y => (y <? x)%Z
-  | KFloat w, AF x, AF y => ieee_gt w x y
-  | _, _, _ => false
-  end.
-
 Definition akey_bytes (a : akey) : list N :=
   match a with AB l => l | AC o _ => o | _ => [] end.
 
@@ -163,19 +140,20 @@ Definition do_range (k : kind) (st : state) (a b : akey) (ans : nat -> bool) : o
       seq_out k (run_range (root st) sk ek sk ek ans)
     end
   | KUnsigned _ | KSigned _ | KFloat _ =>
-    if key_eq k a b then
+    (* the bounds are ordered and compared in their encoded form (bytes.Compare) *)
+    let sk := fst (transform k a) in
+    let ek := fst (transform k b) in
+    match lex_cmp sk ek with
+    | Eq =>
       (* func(yield) { val, ok := t.Search(start); if !ok {return}; if !yield(start, val) {return} } *)
-      let '(gk, tk) := transform k a in
-      match do_search st gk tk with
+      match do_search st sk (snd (transform k a)) with
       | OFound v => OSeq [(a, v)] 1
       | OAbsent => OSeq [] 0
       | o => o
       end
-    else
-      let '(a, b) := if key_gt k a b then (b, a) else (a, b) in
-      let sk := fst (transform k a) in
-      let ek := fst (transform k b) in
-      seq_out k (run_range (root st) sk ek sk ek ans)
+    | Gt => seq_out k (run_range (root st) ek sk ek sk ans)
+    | Lt => seq_out k (run_range (root st) sk ek sk ek ans)
+    end
   | KCompound _ =>
     match root st with
     | None => OSeq [] 0
